@@ -294,6 +294,36 @@ def genstate(job, which, method):
                     job.violation('bare', dict(key='C09:gen:%s:bare-call-depends-on-earlier-use' % which, kind='genbare', which=which, method=method,
                                                earlier=[m0, n0, o0], lens=[len(b1), len(b2), len(b3)]))
             job.absorb_explorer(exb)
+    # the same method and n with ANOTHER order first: defaults that depend on the order (scale, base step, count) are per call
+    for kw in (dict(), dict(step_ratio=2.0, num_steps=8)):
+        for (m0, n0, o0, o1) in (('central', 1, 2, 4), ('forward', 2, 2, 6), ('complex', 1, 2, 8)):
+            def harness_o():
+                with tr.traced(extra=[(sg, 'get_base_step', lambda scale: sn.Sym(ufb(sn.lift(scale) if sn.is_sym(scale) else sn.ratval(scale))))]):
+                    g = cls(**kw)
+                    g.step_generator_function(xp, m0, n0, o0)
+                    _ = (g.base_step, g.scale, g.num_steps, g.step_ratio)
+                    s2 = g.step_generator_function(x, m0, n0, o1)
+                    f2 = cls(**kw).step_generator_function(x, m0, n0, o1)
+                    return (s2.base_step, s2.step_ratio, s2.num_steps, s2.offset), (f2.base_step, f2.step_ratio, f2.num_steps, f2.offset)
+            exo = sn.Explorer(harness_o, max_paths=256, timeout_ms=20000)
+            for po in exo.paths():
+                job.paths += 1
+                if po.exc is not None:
+                    if isinstance(po.exc, sn.Unsupported):
+                        raise po.exc
+                    job.violation('raises', dict(key='C09:gen:raises:%s' % type(po.exc).__name__, kind='gen', exc=repr(po.exc)[:200]))
+                    continue
+                got, fresh = po.result
+                ok = True
+                for u, w in zip(got, fresh):
+                    if sn.is_sym(u) or sn.is_sym(w):
+                        ok = ok and z3.is_true(z3.simplify(sn.lift(u) == sn.lift(w)))
+                    else:
+                        ok = ok and (u == w)
+                if not job.confirm('generator after the same (method, n) with another order == fresh generator', bool(ok)):
+                    job.violation('order', dict(key='C09:gen:%s:order-dependent-default-remembered' % which, kind='genorder', which=which, method=method,
+                                                earlier=[m0, n0, o0, o1], kw={k: str(v) for k, v in kw.items()}))
+            job.absorb_explorer(exo)
     job.twin('assumptions', assume)
 
 
@@ -532,14 +562,24 @@ def reuse_cls(job, cls, method):
                 obj(x2)
                 again = obj(x1)
                 fresh = mk(f)(x1)
+                # a generator with a per-coordinate (array) base step and the default nominal step, used for two calls
+                ga = nd.MinStepGenerator(base_step=np.array([0.25, 0.125]), step_ratio=2.0, num_steps=3)
+                xb = np.array([1.25, -2.0])
+                kwb = dict(method=method, full_output=True)
+                oa = getattr(nd, cls)(f, step=ga, **kwb)
+                oa(xb)
+                second = oa(xb)
+                gfresh = nd.MinStepGenerator(base_step=np.array([0.25, 0.125]), step_ratio=2.0, num_steps=3)
+                fresh_b = getattr(nd, cls)(f, step=gfresh, **kwb)(xb)
+                extra_pair = (second, fresh_b)
                 # the caller reuses ONE array object and updates it in place between the calls
                 obj2 = mk(f)
                 xa = np.array(x2, dtype=float)
                 obj2(xa)
                 xa[:] = np.asarray(x1, dtype=float)
                 inplace = obj2(xa)
-                return first, again, fresh, inplace
-            return first, again, fresh, None
+                return first, again, fresh, inplace, extra_pair
+            return first, again, fresh, None, None
     ex = sn.Explorer(harness, assumptions=box, max_paths=400, timeout_ms=20000)
     paths = list(ex.paths())
     job.absorb_explorer(ex)
@@ -549,10 +589,12 @@ def reuse_cls(job, cls, method):
                 raise p.exc
             job.violation('raises', dict(key='C09:reuse:%s:raises:%s' % (cls, type(p.exc).__name__), kind='reuse_cls', exc=repr(p.exc)[:300]))
             continue
-        first, again, fresh, inplace = p.result
+        first, again, fresh, inplace, extra_pair = p.result
         pairs = [('again == first', again, first), ('again == fresh', again, fresh)]
         if inplace is not None:
             pairs.append(('same array object updated in place == fresh', inplace, fresh))
+        if extra_pair is not None:
+            pairs.append(('second call with an array base step == fresh', extra_pair[0], extra_pair[1]))
         for label, (va, ia), (vb, ib) in pairs:
             for x, y, what in ((va, vb, 'value'), (ia.error_estimate, ib.error_estimate, 'error_estimate'), (ia.final_step, ib.final_step, 'final_step'),
                                (getattr(ia, 'f_value', 0), getattr(ib, 'f_value', 0), 'f_value')):
@@ -645,6 +687,18 @@ def replay(cex):
                     return True, '%s reused after (x=%r, n=%d, order=%d) yields %r for (x=%r, %s, n=%d, order=%d); a fresh generator yields %r' % (
                         cls.__name__, xp, npv, opv, a[:3], x, method, n, o, b[:3])
         return False, 'reused generator == fresh generator on the probes'
+    if kind == 'genorder':
+        sgm = mods['sg']
+        cls_ = sgm.MinStepGenerator if cex['which'] == 'min' else sgm.MaxStepGenerator
+        for kw in (dict(), dict(step_ratio=2.0, num_steps=8)):
+            for (m0, n0, o0, o1) in (('central', 1, 2, 4), ('forward', 2, 2, 6), ('complex', 1, 2, 8)):
+                g = cls_(**kw)
+                list(g(0.7, m0, n0, o0))
+                a, b = list(g(1.5, m0, n0, o1)), list(cls_(**kw)(1.5, m0, n0, o1))
+                if len(a) != len(b) or any(float(u) != float(w) for u, w in zip(a, b)):
+                    return True, ('%s(%s): after a use with (%s, n=%d, order=%d) the call with order=%d yields %r, a fresh generator %r'
+                                  % (cls_.__name__, kw, m0, n0, o0, o1, [float(v) for v in a][:4], [float(v) for v in b][:4]))
+        return False, 'order-dependent defaults are per call'
     if kind == 'genbare':
         sgm = mods['sg']
         cls_ = sgm.MinStepGenerator if cex['which'] == 'min' else sgm.MaxStepGenerator
@@ -744,6 +798,15 @@ def replay(cex):
                 with cm.quiet():
                     obj = mk(f); first = obj(x1); obj(x2); again = obj(x1); fresh = mk(f)(x1)
                     obj2 = mk(f); xa = x2.copy(); obj2(xa); xa[:] = x1; inplace = obj2(xa)
+                    mkg = lambda: nd.MinStepGenerator(base_step=np.array([0.25, 0.125]), step_ratio=2.0, num_steps=3)  # noqa
+                    xb = np.array([1.25, -2.0])
+                    oa = getattr(nd, cls)(f, step=mkg(), method=method, full_output=True); oa(xb); sec = oa(xb)
+                    frb = getattr(nd, cls)(f, step=mkg(), method=method, full_output=True)(xb)
+                if not (np.array_equal(sec[0], frb[0]) and np.array_equal(sec[1].final_step, frb[1].final_step)):
+                    return True, ('%s(method=%s) with MinStepGenerator(base_step=array): the second call at x=%r gives %r (final_step %r), a fresh '
+                                  'object %r (final_step %r)' % (cls, method, xb.tolist(), sec[0], sec[1].final_step, frb[0], frb[1].final_step))
+                with cm.quiet():
+                    pass
                 if not (np.array_equal(inplace[0], fresh[0]) and np.array_equal(np.asarray(inplace[1].f_value), np.asarray(fresh[1].f_value))):
                     return True, ('%s(method=%s): called with one array object that was updated in place between the calls: value %r, f_value %r; '
                                   'a fresh object at the same point gives %r, %r' % (cls, method, inplace[0], inplace[1].f_value, fresh[0], fresh[1].f_value))
